@@ -52,6 +52,7 @@ type spec struct {
 	Sides  []string `json:"sides,omitempty"` // listen | dial
 	Steps  int      `json:"steps,omitempty"`
 	Tran   string   `json:"tran,omitempty"`
+	Wild   bool     `json:"wild,omitempty"` // opts kind: the listener binds the wildcard address, the client dials 127.0.0.1
 	Yield  bool     `json:"yield,omitempty"`
 	Peer   string   `json:"peer,omitempty"`  // endpoints: held (hand-made peers keeping their SP header back) | sock (mangos sockets)
 	Conns  int      `json:"conns,omitempty"` // endpoints: connections over the Socks endpoints
@@ -82,6 +83,10 @@ func TestC13(t *testing.T) {
 	}
 	for i := 0; i < r.Pick(4, 20); i++ {
 		cases = append(cases, mon.CaseSpec{Name: "opts/ws-handler-on-own-https", Spec: spec{Kind: "wshandler"}})
+	}
+	wilds := []string{"tcp", "ws", "tls+tcp", "wss"}
+	for i := 0; i < r.Pick(8, 80); i++ {
+		cases = append(cases, mon.CaseSpec{Name: "opts/" + wilds[i%len(wilds)] + "/wildcard", Spec: spec{Kind: "opts", Tran: wilds[i%len(wilds)], Wild: true}})
 	}
 	for i := 0; i < r.Pick(48, 2400); i++ {
 		sp := spec{Kind: "closerace", Socks: 1, Protos: []string{protoNames[i%len(protoNames)]}, Sides: []string{[]string{"listen", "dial"}[(i/len(protoNames))%2]}, Yield: rnd.Intn(2) == 0}
@@ -832,18 +837,40 @@ func runOpts(c *mon.Case, sp spec) {
 	ws, wc := hx.WatchPipes(srv), hx.WatchPipes(cli)
 	var sp1, cp1 mangos.Pipe
 	var mu sync.Mutex
+	// what the pipes say about themselves inside their Detached callback (the connection is closed by then,
+	// the pipe object is still the application's to ask)
+	type lateView struct {
+		local, remote, tlsState interface{}
+		e1, e2, e3              error
+	}
+	late := map[string]*lateView{}
+	readLate := func(side string, p mangos.Pipe) {
+		v := &lateView{}
+		v.local, v.e1 = p.GetOption(mangos.OptionLocalAddr)
+		v.remote, v.e2 = p.GetOption(mangos.OptionRemoteAddr)
+		v.tlsState, v.e3 = p.GetOption(mangos.OptionTLSConnState)
+		mu.Lock()
+		late[side] = v
+		mu.Unlock()
+	}
 	srv.SetPipeEventHook(func(ev mangos.PipeEvent, p mangos.Pipe) {
-		if ev == mangos.PipeEventAttached {
+		switch ev {
+		case mangos.PipeEventAttached:
 			mu.Lock()
 			sp1 = p
 			mu.Unlock()
+		case mangos.PipeEventDetached:
+			readLate("server", p)
 		}
 	})
 	cli.SetPipeEventHook(func(ev mangos.PipeEvent, p mangos.Pipe) {
-		if ev == mangos.PipeEventAttached {
+		switch ev {
+		case mangos.PipeEventAttached:
 			mu.Lock()
 			cp1 = p
 			mu.Unlock()
+		case mangos.PipeEventDetached:
+			readLate("client", p)
 		}
 	})
 	_, _ = ws, wc
@@ -856,7 +883,14 @@ func runOpts(c *mon.Case, sp spec) {
 			defer syscall.Setegid(os.Getgid())
 		}
 	}
-	l, d, err := hx.Connect(srv, cli, sp.Tran)
+	var l mangos.Listener
+	var d mangos.Dialer
+	var err error
+	if sp.Wild {
+		l, d, err = connectWildcard(srv, cli, sp.Tran)
+	} else {
+		l, d, err = hx.Connect(srv, cli, sp.Tran)
+	}
 	if wantGid == 4242 {
 		syscall.Setegid(os.Getgid())
 	}
@@ -882,6 +916,9 @@ func runOpts(c *mon.Case, sp spec) {
 	if cp1.Address() != d.Address() {
 		bad("dialer-address", "client pipe Address()=%q, dialer Address()=%q", cp1.Address(), d.Address())
 	}
+	if sp.Wild {
+		tr += "/wildcard"
+	}
 	c.Count("option_checks", 4)
 	get := func(p mangos.Pipe, n string) (interface{}, error) { return p.GetOption(n) }
 	addrStr := func(v interface{}) string {
@@ -902,13 +939,13 @@ func runOpts(c *mon.Case, sp spec) {
 	if e1 != nil || e2 != nil || e3 != nil || e4 != nil {
 		bad("address-options-missing", "LOCAL-ADDR/REMOTE-ADDR errors: %v %v %v %v", e1, e2, e3, e4)
 	} else {
-		switch tr {
+		switch sp.Tran {
 		case "tcp", "tls+tcp", "ws", "wss":
 			if addrStr(sl) != addrStr(cr) || addrStr(sr) != addrStr(cl) {
 				bad("addresses-not-mirrored", "server local/remote = %s/%s, client local/remote = %s/%s", addrStr(sl), addrStr(sr), addrStr(cl), addrStr(cr))
 			}
-			host := strings.TrimPrefix(strings.TrimPrefix(l.Address(), tr+"://"), "")
-			if !strings.HasPrefix(host, addrStr(sl)) {
+			host := strings.TrimPrefix(strings.TrimPrefix(l.Address(), sp.Tran+"://"), "")
+			if !sp.Wild && !strings.HasPrefix(host, addrStr(sl)) {
 				bad("local-address-not-listen-address", "server pipe local address %s, listener address %s", addrStr(sl), l.Address())
 			}
 		case "ipc":
@@ -928,7 +965,7 @@ func runOpts(c *mon.Case, sp spec) {
 	// TLS state exactly on the TLS transports
 	for side, p := range map[string]mangos.Pipe{"server": sp1, "client": cp1} {
 		v, err := get(p, mangos.OptionTLSConnState)
-		if hx.NeedsTLS(tr) {
+		if hx.NeedsTLS(sp.Tran) {
 			cs, ok := v.(tls.ConnectionState)
 			if err != nil || !ok || !cs.HandshakeComplete {
 				bad("tls-state-missing", "%s pipe: TLS-STATE = %T %v, want a completed tls.ConnectionState", side, v, err)
@@ -938,7 +975,7 @@ func runOpts(c *mon.Case, sp spec) {
 		}
 		c.Count("option_checks", 1)
 	}
-	if tr == "ipc" {
+	if sp.Tran == "ipc" {
 		for side, p := range map[string]mangos.Pipe{"server": sp1, "client": cp1} {
 			pid, e1 := get(p, mangos.OptionPeerPID)
 			uid, e2 := get(p, mangos.OptionPeerUID)
@@ -953,8 +990,78 @@ func runOpts(c *mon.Case, sp spec) {
 	if sp1.ID() == 0 || sp1.ID() >= 1<<31 || cp1.ID() == 0 || cp1.ID() >= 1<<31 || sp1.ID() == cp1.ID() {
 		bad("ids", "server pipe id %08x, client pipe id %08x: want distinct non-zero 31-bit values", sp1.ID(), cp1.ID())
 	}
+	// ---- the same questions asked inside the Detached callbacks, once the connection is gone ----
+	attachedTLS := map[string]interface{}{}
+	for side, p := range map[string]mangos.Pipe{"server": sp1, "client": cp1} {
+		v, _ := get(p, mangos.OptionTLSConnState)
+		attachedTLS[side] = v
+	}
+	cli.Close()
+	if !c.AwaitOrViolate("opts/detach-stuck", "both pipes reporting Detached after the client closed", func() bool { mu.Lock(); defer mu.Unlock(); return late["server"] != nil && late["client"] != nil }, mon.AwaitOpts{MaxTimer: 100 * time.Millisecond}) {
+		return
+	}
+	mu.Lock()
+	defer mu.Unlock()
+	was := map[string][2]interface{}{"server": {sl, sr}, "client": {cl, cr}}
+	for _, side := range []string{"server", "client"} {
+		lv := late[side]
+		if sp.Tran != "inproc" && e1 == nil && e2 == nil && e3 == nil && e4 == nil {
+			if lv.e1 != nil || lv.e2 != nil || addrStr(lv.local) != addrStr(was[side][0]) || addrStr(lv.remote) != addrStr(was[side][1]) {
+				bad("addresses-changed-at-detach", "%s pipe inside its Detached callback: LOCAL-ADDR/REMOTE-ADDR = %v/%v (%v %v), while attached %v/%v", side, lv.local, lv.remote, lv.e1, lv.e2, was[side][0], was[side][1])
+			}
+			c.Count("option_checks_at_detach", 2)
+		}
+		if hx.NeedsTLS(sp.Tran) {
+			cs, ok := lv.tlsState.(tls.ConnectionState)
+			as, _ := attachedTLS[side].(tls.ConnectionState)
+			if lv.e3 != nil || !ok || !cs.HandshakeComplete || cs.Version != as.Version || cs.CipherSuite != as.CipherSuite {
+				bad("tls-state-wrong-at-detach", "%s pipe inside its Detached callback: TLS-STATE = %T handshake-complete=%v version=%x suite=%x (%v); while attached: version=%x suite=%x", side, lv.tlsState, cs.HandshakeComplete, cs.Version, cs.CipherSuite, lv.e3, as.Version, as.CipherSuite)
+			}
+			c.Count("option_checks_at_detach", 1)
+		}
+	}
 	c.Nontrivial()
 	c.Sig("opts|%s", tr)
+}
+
+// connectWildcard: the listener binds every local address (port chosen by the system); the client dials
+// 127.0.0.1 at that port.  What the accepted pipe says about its own end must be the address of the
+// connection, not the address the listener was bound to.
+func connectWildcard(srv, cli mangos.Socket, tr string) (mangos.Listener, mangos.Dialer, error) {
+	var lo, do map[string]interface{}
+	if hx.NeedsTLS(tr) {
+		s, c := hx.TlsConfigs()
+		lo = map[string]interface{}{mangos.OptionTLSConfig: s}
+		do = map[string]interface{}{mangos.OptionTLSConfig: c}
+	}
+	path := ""
+	if tr == "ws" || tr == "wss" {
+		path = "/" + hx.Uniq("w")
+	}
+	l, err := srv.NewListener(tr+"://0.0.0.0:0"+path, lo)
+	if err != nil {
+		return nil, nil, fmt.Errorf("NewListener: %w", err)
+	}
+	if err := l.Listen(); err != nil {
+		return nil, nil, fmt.Errorf("Listen: %w", err)
+	}
+	a := l.Address()
+	i := strings.LastIndex(a, ":")
+	if i < 0 {
+		return l, nil, fmt.Errorf("listener address %q has no port", a)
+	}
+	port := a[i+1:]
+	if j := strings.Index(port, "/"); j >= 0 {
+		port = port[:j]
+	}
+	d, err := cli.NewDialer(tr+"://127.0.0.1:"+port+path, do)
+	if err != nil {
+		return l, nil, fmt.Errorf("NewDialer: %w", err)
+	}
+	if err := d.Dial(); err != nil {
+		return l, d, fmt.Errorf("Dial: %w", err)
+	}
+	return l, d, nil
 }
 
 // runWSHandler: a ws:// listener whose handler the application mounts on its own HTTPS server —
